@@ -6,10 +6,13 @@ pub mod engine;
 pub mod gen;
 pub mod spaces;
 pub mod campaign;
+pub mod c06gen;
 pub mod replay;
 pub mod irtext;
 pub mod matchgen;
+pub mod mutgen;
 pub mod pool;
+pub mod stdgen;
 pub mod worker;
 
 use std::cell::RefCell;
